@@ -1,10 +1,12 @@
 (* C13 — Equivalent spellings of a query give the same result.  Statements only.
    The semantic half (what differently spelled ASTs denote) is proved here on the RFC semantics
    and carries to the model through Theorem A (C01_refinement).  The syntactic half — blank space
-   and layout never change the AST the parser builds — is not proved; it is checked on every
-   run by the k-spellings stream (and is a fragment of C06's full statement). *)
+   and layout never change the AST the parser builds — is proved for the filter-free sublanguage
+   (C13_blank_space_filter_free, through the generated grammar and parser.rs); for filters it is
+   checked on every run by the k-spellings and slot-sweep streams. *)
 From Coq Require Import List NArith ZArith Bool.
-From JP Require Import Base Ast Eval ValueModel Spec Known WellFormed Regex SpellFacts SpecSteps.
+From JP Require Import Base Ast Eval ValueModel Spec Known WellFormed Regex SpellFacts SpecSteps
+  Build FragParse FragBuild FragWs FragWsBuild.
 Import ListNotations.
 Open Scope Z_scope.
 
@@ -48,3 +50,12 @@ Example C13_100 :
   dy_eqb (num_f64 (NInt 100)) (num_f64 (NFlt (25, 2))) = true
   /\ dy_eqb (num_f64 (NInt 100)) (num_f64 (NFlt (100, 0))) = true.
 Proof. vm_compute. split; reflexivity. Qed.
+
+(* optional blank space: a filter-free query written with any runs of blank space at the places where
+   RFC 9535 allows them is read exactly as its compact spelling (hence gives the same result on every
+   document, through every entry point) *)
+Theorem C13_blank_space_filter_free : forall q,
+  lq_ok q -> lq_range q ->
+  parse_query (36%N :: lq_text q) = parse_query (36%N :: segs_text (lq_strip q)).
+Proof. exact blanks_irrelevant. Qed.
+Print Assumptions C13_blank_space_filter_free.
